@@ -543,3 +543,13 @@ LEVEL_NOTE = LEVEL_NOTE + (" Model = code (pure-Python parser): coq/Gen/DurParse
                            "(self-tested by mutation) rather than only a source pin. Remaining gap: a FRACTIONAL week - the translation uses CPython's float // 1, % 1, int() where the hand model "
                            "writes trunc and x - trunc x; equal on five witnesses by kernel computation, in general only tied by correspondence. Not translated: the compiled parser's glue "
                            "(parser.py -> pendulum.duration), the interval glue py_parts, Duration.__new__ with float arguments (duration_native is the hand model of delta_new/accum).")
+
+
+# the fractional week is closed through Flocq
+TRUSTED = list(TRUSTED) + [
+    "Flocq (installed library) correctness theorems for binary64 operations, bridged to Coq's SpecFloat in coq/Proofs/FloatRoundTrip*.v / FloatRoutesFlocq.v, and the standard-library "
+    "real-number axioms reported by Print Assumptions (ClassicalDedekindReals.sig_not_dec, ClassicalDedekindReals.sig_forall_dec, FunctionalExtensionality.functional_extensionality_dep, "
+    "Classical_Prop.classic) for model_is_code_parse_iso8601_duration / model_is_code_py_native ONLY (the week-fraction carry, coq/Proofs/DurParseWeekCarry.v); every other C13 theorem is closed under the global context",
+]
+LEVEL_NOTE = LEVEL_NOTE + (" Update: the fractional week is closed (coq/Proofs/DurParseWeekCarry.v: for x = int(portion)/10*7 CPython's float x // 1, x % 1, int() agree with the hand model's trunc "
+                           "and x - trunc x): model_is_code_parse_iso8601_duration holds for EVERY match record whose week fraction digits are worth less than 10^15 (at most 15 digits), nothing else bounded.")
